@@ -719,6 +719,9 @@ static JanetAssembleResult janet_asm1(JanetAssembler *parent, Janet source, int 
                 janet_asm_error(&a, "expected tuple");
             }
             tup = janet_unwrap_tuple(entry);
+            if (janet_tuple_length(tup) < 2) {
+                janet_asm_error(&a, "expected tuple of 2 integers");
+            }
             if (!janet_checkint(tup[0])) {
                 janet_asm_error(&a, "expected integer");
             }
@@ -749,6 +752,9 @@ static JanetAssembleResult janet_asm1(JanetAssembler *parent, Janet source, int 
                 janet_asm_error(&a, "expected tuple");
             }
             tup = janet_unwrap_tuple(entry);
+            if (janet_tuple_length(tup) < 4) {
+                janet_asm_error(&a, "expected tuple of 4 elements");
+            }
             if (janet_keyeq(tup[0], "upvalue")) {
                 ss.birth_pc = UINT32_MAX;
             } else if (!janet_checkint(tup[0])) {
